@@ -34,6 +34,7 @@ def run(S):
 HYGIENE_DOCS = [
     '#{\n  let a = 1\n\n  let b = 2\n}\n', '#f(\n  a,\n\n  b,\n)\n', '/* a\n\n   b */\n', '#{\n  /* a\n\n     b */\n}\n', '#let s = "a"   \n', 'text   \n\n\n', 'a \\\nb\n', '- a\n\n  b\n',
     '```\nraw\n\n```\n', '$ a \\\n\n b $\n', '#[\n  a\n\n  b\n]\n', '#{\n  {\n    {\n      a\n\n      b\n    }\n  }\n}\n', 'x' * 100 + ' /*\n\n*/\n', '#f(' * 60 + 'a,\n\nb' + ')' * 60 + '\n',
+    'a\r', 'a\r\nb\r\n', '= T\nS /* p\rn */ t\n', '#let s = "a\rb"\n', '```\na\r\nb\n```\n', 'a\u0085b\n', 'a\u2028b\u2029', '#f(a,\r b)\r', '// c\r\na\r\n',
     '= h \t\n', 'a\u00a0\n', '// c \u3000\n', '', ' ', '\n\n', '#{\n  let a = 1 // c   \n\n}\n',
 ]
 
